@@ -60,3 +60,43 @@ Definition justified_choices : list site := [
   S "storeFSM.applyDropDatabaseCommand" "dbi.ContinuousQueries" 1; (* removes names from the sorted scheduling list: set semantics, not catalogue *)
   S "Data.DropSubscription" "db.RetentionPolicies" 3          (* NOT harmless: finding C15-dropsubscription-map-order *)
 ].
+
+(* Every access of the apply path (storeFSM.Apply/ApplyBatch/Restore/Snapshot/executeCmd and everything they reach) to a
+   transient field, reviewed: a READ is harmless only because the value is re-established before it on every replica,
+   whatever the replica restored from. The generated list must equal this one, so a new reader, or the removal of a
+   re-establishing write (e.g. setting Data.ExpandShardsEnable once at start-up instead of before each node join), breaks
+   C15_transient_access_reviewed. *)
+Definition R (f fn : string) : access := (f, fn, "read").
+Definition W (f fn : string) : access := (f, fn, "write").
+Definition reviewed_access : list access := [
+  (* derived from Users: recomputed by Unmarshal, maintained by CreateUser *)
+  W "AdminUserExists" "Data.CreateUser";
+  (* copied from the node's configuration immediately before the only reader (Data.CreateDataNode) runs: both apply
+     handlers assign it first, so a restored replica (whose fresh Data has false) still behaves like the others *)
+  R "ExpandShardsEnable" "Data.CreateDataNode";
+  R "ExpandShardsEnable" "storeFSM.applyCreateDataNodeCommand"; W "ExpandShardsEnable" "storeFSM.applyCreateDataNodeCommand";
+  R "ExpandShardsEnable" "storeFSM.applyCreateSqlNodeCommand"; W "ExpandShardsEnable" "storeFSM.applyCreateSqlNodeCommand";
+  (* incremental-sync cache of applied commands: written after a command was applied, never consulted by an apply function
+     to decide anything about the catalogue; Restore keeps the node's own cache (SetOps) *)
+  R "OpsMap" "Data.AddCmdAsOpToOpMap"; R "OpsMap" "Data.SetOps"; W "OpsMap" "Data.SetOps";
+  R "OpsMapMaxIndex" "Data.AddCmdAsOpToOpMap"; W "OpsMapMaxIndex" "Data.AddCmdAsOpToOpMap"; R "OpsMapMaxIndex" "Data.SetOps"; W "OpsMapMaxIndex" "Data.SetOps";
+  R "OpsMapMinIndex" "Data.AddCmdAsOpToOpMap"; W "OpsMapMinIndex" "Data.AddCmdAsOpToOpMap"; R "OpsMapMinIndex" "Data.SetOps"; W "OpsMapMinIndex" "Data.SetOps";
+  R "OpsToMarshalIndex" "Data.AddCmdAsOpToOpMap"; W "OpsToMarshalIndex" "Data.AddCmdAsOpToOpMap"; R "OpsToMarshalIndex" "Data.SetOps"; W "OpsToMarshalIndex" "Data.SetOps";
+  R "opsMapMu" "Data.AddCmdAsOpToOpMap";
+  (* external store handle: InsertFiles fails identically everywhere when it is absent; Store.close is not an apply function
+     (reached by name only) *)
+  R "SQLite" "Store.close"; R "SQLite" "storeFSM.applyInsertFilesCommand";
+  (* lock *)
+  R "SchemaLock" "Data.UpdateSchema"; R "SchemaLock" "MeasurementInfo.SchemaClean";
+  (* written by Apply/ApplyBatch only *)
+  W "UpdateNodeTmpIndexCommandStart" "storeFSM.ApplyBatch"; W "UpdateNodeTmpIndexCommandStart" "storeFSM.Apply";
+  (* cache of the measurement's name without version: set by every constructor and by unmarshal, read by SchemaClean *)
+  W "originName" "Data.RecoverDataBase"; W "originName" "Data.RecoverData"; R "originName" "Data.SchemaClean"; W "originName" "NewMeasurementInfo"
+].
+
+(* configuration switches read by the apply path. The differential varies the first four per case (all replicas of a case
+   share one configuration, as the nodes of one cluster do); the others are fixed at their defaults in the harness:
+   HA policy write-available-first, default replica distribution; JoinPeers and SQLiteEnabled are read by Store methods that
+   are reached by name only and are not apply functions. A new switch read by the apply path breaks C15_switches_known. *)
+Definition varied_switches : list string := ["ExpandShardsEnable"; "RetentionAutoCreate"; "UseIncSyncData"; "SchemaCleanEn"].
+Definition fixed_switches : list string := ["GetHaPolicy"; "repDisPolicy"; "JoinPeers"; "SQLiteEnabled"; "IsLogKeeper"].
